@@ -1,1 +1,6 @@
--- proofs root
+import MosaikProofs.Lemmas.Tiered
+import MosaikProofs.Lemmas.IOSet
+import MosaikProofs.Properties.C08
+import MosaikProofs.Properties.C12
+import MosaikProofs.Properties.C18
+import MosaikProofs.Findings
